@@ -111,6 +111,25 @@ def do_import(wt, sid):
     return 0
 
 
+
+def run_all_checks(d):
+    """One `check all` run on the scratch copy: {property: [failing lines]} for the properties that fail."""
+    r = subprocess.run([os.path.join(HERE, 'check'), 'all', '--repo', d, '--no-evidence'], capture_output=True, text=True)
+    fired = {}
+    cur = []
+    for l in r.stdout.splitlines():
+        if re.match(r'^\s+(FAIL|ANCHOR) ', l):
+            cur.append(re.sub(r'\s+', ' ', l.strip())[:300])
+        m = re.match(r'^RESULT (C\d\d) (PASS|FAIL)', l)
+        if m:
+            if m.group(2) == 'FAIL':
+                fired[m.group(1)] = cur[:5]
+            cur = []
+    if 'RESULT C18' not in r.stdout:
+        fired['ENGINE'] = [(r.stderr or r.stdout)[-300:]]
+    return fired
+
+
 def do_run(ids):
     ids = ids or sorted(os.listdir(SEEDED))
     summary = {}
@@ -125,12 +144,7 @@ def do_run(ids):
             if not applied:
                 print('%-20s patch does not apply to the current tree' % sid)
                 continue
-            fired = {}
-            for i in range(1, 19):
-                p = 'C%02d' % i
-                r = subprocess.run([os.path.join(HERE, 'check'), p, '--repo', d, '--no-evidence'], capture_output=True, text=True)
-                if r.returncode != 0:
-                    fired[p] = [re.sub(r'\s+', ' ', l.strip())[:300] for l in r.stdout.splitlines() if re.match(r'^\s+(FAIL|ANCHOR) ', l)][:5]
+            fired = run_all_checks(d)
             target = meta.get('property')
             status = 'CAUGHT' if target in fired else ('caught-by-other' if fired else 'MISSED')
             summary[sid] = {'property': target, 'status': status, 'fired': fired}
@@ -195,12 +209,7 @@ def do_refactor_run(ids):
             if not applied:
                 print('%-14s patch does not apply to the current tree' % rid)
                 continue
-            fired = {}
-            for i in range(1, 19):
-                p = 'C%02d' % i
-                r = subprocess.run([os.path.join(HERE, 'check'), p, '--repo', d, '--no-evidence'], capture_output=True, text=True)
-                if r.returncode != 0:
-                    fired[p] = [re.sub(r'\s+', ' ', l.strip())[:300] for l in r.stdout.splitlines() if re.match(r'^\s+(FAIL|ANCHOR) ', l)][:4]
+            fired = run_all_checks(d)
             json.dump({'fired': fired}, open(os.path.join(pdir, 'result.json'), 'w'), indent=1, ensure_ascii=False)
             if fired:
                 bad += 1
